@@ -362,9 +362,27 @@ func genCur() *rapid.Generator[*big.Int] {
 }
 
 func drawOp(t *rapid.T) OpCase {
-	op := rapid.SampledFrom([]string{"add", "sub", "mul", "div", "div", "cmp", "mul64", "div64", "divq"}).Draw(t, "op")
+	op := rapid.SampledFrom([]string{"add", "sub", "mul", "div", "div", "cmp", "mul64", "div64", "divq", "divw", "divw"}).Draw(t, "op")
 	a := genCur().Draw(t, "a")
 	switch op {
+	case "divw":
+		// a dividend in the top bits of the range (an "unlimited" budget, the largest currency) by a divisor only a little
+		// wider than one word (a price): the long-division path whose trial quotient needs its correction step
+		var c *big.Int
+		switch rapid.IntRange(0, 3).Draw(t, "wTop") {
+		case 0:
+			c = new(big.Int).Set(max128)
+		case 1:
+			c = new(big.Int).Sub(max128, new(big.Int).SetUint64(rapid.Uint64().Draw(t, "wBelow")))
+		default:
+			c = new(big.Int).SetUint64(rapid.Uint64().Draw(t, "wHi") | 1<<uint(rapid.IntRange(61, 63).Draw(t, "wTopBit")))
+			c.Lsh(c, 64).Or(c, new(big.Int).SetUint64(rapid.Uint64().Draw(t, "wLo")))
+		}
+		bits := rapid.IntRange(65, 100).Draw(t, "wBits")
+		v := new(big.Int).SetUint64(rapid.Uint64().Draw(t, "wvHi"))
+		v.Lsh(v, 64).Or(v, new(big.Int).SetUint64(rapid.Uint64().Draw(t, "wvLo")))
+		v.Rsh(v, uint(128-bits)).SetBit(v, bits-1, 1)
+		return OpCase{Op: "div", A: c.String(), B: v.String()}
 	case "mul64", "div64":
 		var k uint64
 		if rapid.Bool().Draw(t, "kb") {
